@@ -163,6 +163,16 @@ func (x *Transaction) GetSignBytes() ([]byte, ErrorI) {
 	})
 }
 
+// ContentHash() identifies the signed content of a transaction independently of how (and by which
+// co-signers of a multisig account) it was signed and of how its bytes were encoded
+func (x *Transaction) ContentHash() ([]byte, ErrorI) {
+	signBytes, err := x.GetSignBytes()
+	if err != nil {
+		return nil, err
+	}
+	return crypto.Hash(append([]byte("tx-content/"), signBytes...)), nil
+}
+
 // Sign() executes a digital signature on the transaction
 func (x *Transaction) Sign(pk crypto.PrivateKeyI) (err ErrorI) {
 	// get the sign bytes for the transaction
